@@ -16,9 +16,14 @@ _TECH_E1 = 'contract-based deductive verification: own AST->VC generator + z3 (s
 _TECH_T3 = 'sidecar run-time contracts vs dense oracles (bounded stand-in)'
 for _i in (1, 2, 3, 4, 5, 6, 7, 8, 9, 10, 11, 16, 17):
     CLAIMED['C%02d' % _i] = ('other', _TECH_E1, _E1, _NOTE)
-for _i in (12, 13, 15, 18, 19):
+for _i in (12, 13, 15, 19):
     CLAIMED['C%02d' % _i] = ('other', _TECH_T3, _T3, _NOTE)
+CLAIMED['C18'] = ('other', _TECH_T3 + '; utils.truncated_svd additionally under an E1 contract (structural clauses, unbounded)',
+                  'Sidecar contracts (pre/postconditions, frame clauses, contracts on private helpers installed into the module namespace) '
+                  'evaluated at run time against independent dense oracles over an enumerated+seeded family - a bounded stand-in, never counted as proved. '
+                  'Of the functions this property depends on only utils.truncated_svd is within reach of the E1 generator (its shape / rank-cut clauses are '
+                  'discharged by z3 for all sizes); the AMUSEt drivers, _reduced_matrix and hocur are listed under unverified_functions.', _NOTE)
 CLAIMED['C14'] = ('other', 'contracts decided by exact symbolic execution of the real methods on sympy symbols (all points and parameters, enumerated families) + complex-step run-time checks',
                   'The real __call__/partial/partial2/gradient/hessian methods are executed on sympy symbols with symbolic parameters (module names np/legendre rebound to contract shims); simplify(partial - diff(call)) == 0 is exact in the evaluation point and the parameters for every enumerated family/index/dimension/degree; B-splines and vectorised evaluation are run-time checks (bounded).', _NOTE)
 CLAIMED['C20'] = ('exploration', 'run-time contract vs dense inverse-CDF oracle with seeded uniforms (bounded)',
-                  'The sampler is compared with a dense inverse-CDF oracle for seeded uniform variates over an enumerated family of states and measured subsets; the sample rule is a floating-point branch on LAPACK-derived numbers which no deductive back end here decides, so this is exploration only (the algebraic ingredients diag/squeeze/transpose/@ are covered under C01/C02).', _NOTE)
+                  'The sampler is compared with a dense inverse-CDF oracle for seeded uniform variates over an enumerated family of states and measured subsets; the sample rule is a floating-point branch on LAPACK-derived numbers which no deductive back end here decides, so this is exploration only; the structural contracts of the algebraic ingredients diag/transpose/@ are re-verified by E1 under this id (squeeze and the sampler itself are not under an E1 contract).', _NOTE)
